@@ -7,6 +7,7 @@ import PygProofs.Lemmas.DfSliceLemmas
 import PygProofs.Lemmas.DfSliceNaLemmas
 import PygProofs.Lemmas.DfSliceBcastLemmas
 import PygProofs.Lemmas.DfSliceFrameLemmas
+import PygProofs.Lemmas.DfSliceOpenLemmas
 
 namespace Pyg.Props.C13
 open Pyg Pyg.Slice
@@ -1731,5 +1732,132 @@ theorem stitch_single_iff (s : TS) (u : Int) (oc : Option (List Char)) (l r : Bo
 
 example : ∃ F, stitch [[(1, some 5), (3, some 7), (4, some 9)]] Option.none (some [3]) (some ['(', ']']) 1 = .ok (some F) ∧ F.rows = [(1, [some 5]), (3, [some 7])] := by
   rw [stitch_single_eq]; exact ⟨_, rfl, by decide⟩
+
+/-! ### bound lists with an UNBOUNDED end (review v4 2.1): `df_slice(dfs, ub = [u_0 .. u_k, None])` - "a missing bound being
+unbounded" inside a bound list.  Model: `directionO`, `normaliseO`, `stitchO`, `unsliceO` (bound lists of `Option Int`). -/
+
+/-- on bound lists of dates the extended model IS the model every other theorem speaks about -/
+theorem stitchO_dates (dfs : List TS) (lb ub : Option (List Int)) (oc : Option (List Char)) (n : Nat) :
+    stitchO dfs (lb.map (List.map some)) (ub.map (List.map some)) oc n = stitch dfs lb ub oc n := by
+  simp only [stitchO, stitch, normaliseO_dates]
+
+/-- the direction test sets a trailing `None` aside; an inner `None` is refused (`TypeError`: `sorted` compares it with a date) -/
+theorem direction_open (ubs : List Int) (hne : ubs ≠ []) :
+    directionO (ubs.map some ++ [Option.none]) = .ok (nonDecreasing ubs) := directionO_open ubs hne
+
+example : directionO [some 1, Option.none, some 2] = .error .type := rfl
+example : directionO [Option.none, some 4, some 2] = .ok false := rfl
+example : directionO [some 2, some 4, Option.none] = .ok true := rfl
+
+/-- **stitch_open_eq** - an unbounded last bound behaves as ANY bound beyond every timestamp of the series (and not below the
+    other bounds): the two stitched frames are the same frame, so every theorem about increasing upper bounds
+    (`stitch_source`, `stitch_once`, `stitch_width`, ...) speaks about the open-ended list too -/
+theorem stitch_open_eq (dfs : List TS) (ubs : List Int) (M : Int) (h : Stitchable dfs (ubs ++ [M]))
+    (hM : ∀ s ∈ dfs, ∀ t ∈ s.index, t < M) (oc : Option (List Char)) (n : Nat) (l u : Bool) (hb : brackets oc = .ok (l, u)) :
+    stitchO dfs Option.none (some (ubs.map some ++ [Option.none])) oc n = stitch dfs Option.none (some (ubs ++ [M])) oc n := by
+  have hne : ubs ≠ [] := by intro h0; have := h.two; simp [h0] at this
+  have hinc : nonDecreasing ubs = true :=
+    pairwise_nonDecreasing _ (List.pairwise_append.mp (nonDecreasing_pairwise _ h.inc)).1
+  have hlen : dfs.length = ubs.length + 1 := by have := h.len; simpa using this
+  have hn1 : normaliseO dfs Option.none (some (ubs.map some ++ [Option.none])) =
+      .ok (dfs, Option.none :: ubs.map some, ubs.map some ++ [Option.none]) := by
+    simp [normaliseO, directionO_open ubs hne, hinc, bind, Except.bind, pure, Except.pure]
+  have hn2 : normalise dfs Option.none (some (ubs ++ [M])) =
+      .ok (dfs, Option.none :: ubs.map some, (ubs ++ [M]).map some) := by
+    simp [normalise, h.inc, pure, Except.pure]
+  rw [stitchO_general dfs _ _ oc n l u hb dfs _ _ hn1 (by simp [hlen]) (by simp [hlen]),
+    stitch_general dfs _ _ oc n l u hb dfs _ _ hn2 (by simp [hlen]) (by simp [hlen]),
+    piecesG_open dfs _ ubs n l u M hM]
+
+/-- there is always such a bound -/
+theorem exists_beyond (xs : List Int) : ∃ M, ∀ x ∈ xs, x < M := by
+  induction xs with
+  | nil => exact ⟨0, by simp⟩
+  | cons a xs ih =>
+    obtain ⟨M, hM⟩ := ih
+    refine ⟨max M (a + 1), ?_⟩
+    intro x hx
+    rcases List.mem_cons.mp hx with rfl | hx
+    · omega
+    · have := hM x hx; omega
+
+/-- **stitch_source_open** - the row characterisation with the LAST interval unbounded above: a row `(t, vs)` is in
+    `df_slice(dfs, ub = [u_0 .. u_{k-1}, None], n)` exactly when, for a piece `i ≤ k` with `t` a timestamp of one of the series
+    `i .. i+n-1`, `t` passes the lower test of `u_{i-1}` (none for `i = 0`) and - for `i < k` only - the upper test of `u_i`;
+    column `j` then carries series `i+j`'s value at `t`.  Stated without any auxiliary bound. -/
+theorem stitch_source_open (dfs : List TS) (ubs : List Int) (hlen : dfs.length = ubs.length + 1) (hne : ubs ≠ [])
+    (hinc : nonDecreasing ubs = true) (oc : Option (List Char)) (n : Nat) (hn : 1 < n) (l u : Bool)
+    (hb : brackets oc = .ok (l, u)) (F : Frame)
+    (hF : stitchO dfs Option.none (some (ubs.map some ++ [Option.none])) oc n = .ok (some F)) (t : Int) (vs : List (Option Int)) :
+    (t, vs) ∈ F.rows ↔ ∃ i, i ≤ ubs.length ∧
+      (∃ s ∈ (dfs.drop i).take n, t ∈ s.index) ∧
+      lbOk l (loBound ubs i) t = true ∧ (∀ hi : i < ubs.length, ubOk u (.date ubs[i]) t = true) ∧
+      vs = padRow F.width (((dfs.drop i).take n).map (·.get t)) := by
+  obtain ⟨M, hM⟩ := exists_beyond (dfs.flatMap TS.index ++ ubs)
+  have hM1 : ∀ s ∈ dfs, ∀ t ∈ s.index, t < M := fun s hs t ht =>
+    hM t (List.mem_append_left _ (List.mem_flatMap.mpr ⟨s, hs, ht⟩))
+  have hM2 : ∀ b ∈ ubs, b ≤ M := fun b hb' => Int.le_of_lt (hM b (List.mem_append_right _ hb'))
+  have hS : Stitchable dfs (ubs ++ [M]) := by
+    refine ⟨by simp [hlen], ?_, ?_⟩
+    · cases ubs with
+      | nil => exact absurd rfl hne
+      | cons a t => simp
+    · apply pairwise_nonDecreasing
+      rw [List.pairwise_append]
+      refine ⟨nonDecreasing_pairwise _ hinc, by simp, ?_⟩
+      intro a ha b hb'
+      rw [List.mem_singleton] at hb'; subst hb'; exact hM2 a ha
+  rw [stitch_open_eq dfs ubs M hS hM1 oc n l u hb] at hF
+  rw [stitch_source dfs (ubs ++ [M]) hS oc n hn l u hb F hF t vs]
+  have hlo : ∀ i, i ≤ ubs.length → loBound (ubs ++ [M]) i = loBound ubs i := by
+    intro i hi
+    unfold loBound
+    by_cases h0 : i = 0
+    · simp [h0]
+    · have : i - 1 < ubs.length := by omega
+      simp [h0, List.getD_eq_getElem?_getD, List.getElem?_append_left this]
+  constructor
+  · rintro ⟨i, hi, hex, h1, h2, h3⟩
+    have hi' : i ≤ ubs.length := by simp at hi; omega
+    refine ⟨i, hi', hex, by rw [← hlo i hi']; exact h1, ?_, h3⟩
+    intro hlt
+    simpa [List.getElem_append_left hlt] using h2
+  · rintro ⟨i, hi, hex, h1, h2, h3⟩
+    refine ⟨i, by simp; omega, hex, by rw [hlo i hi]; exact h1, ?_, h3⟩
+    by_cases hlt : i < ubs.length
+    · simpa [List.getElem_append_left hlt] using h2 hlt
+    · have hi' : i = ubs.length := by omega
+      subst hi'
+      obtain ⟨s, hs, ht⟩ := hex
+      have : t < M := hM1 s (List.mem_of_mem_drop (List.mem_of_mem_take hs)) t ht
+      simp [ubOk]
+      cases u <;> simp <;> omega
+
+/-- the reviewer's input (v4 2.1): three series, bounds `[2, 4, None]`; the extended model stitches 7 rows, `df_unslice` files the
+    unbounded series LAST (keys in the order of the bounds) and the re-stitch reproduces the frame; the decreasing spelling too -/
+def openSeries : List TS := [[(0, some 1), (1, some 2), (2, some 3), (3, some 4)], [(2, some 10), (3, some 20), (4, some 30), (5, some 40)],
+  [(4, some 100), (6, some 200), (7, some 300)]]
+def openBounds : List (Option Int) := [some 2, some 4, Option.none]
+
+#guard (match stitchO openSeries Option.none (some openBounds) (some ['(', ']']) 1 with
+  | .ok (some F) => F.rows.map (·.1) == [0, 1, 2, 3, 4, 6, 7] &&
+      (match unsliceO F openBounds with
+       | .ok U => U.map (·.1) == openBounds &&
+           okEq (stitchO (U.map (·.2)) Option.none (some openBounds) (some ['(', ']']) 1) (some F)
+       | .error _ => false)
+  | _ => false)
+#guard (match stitchO openSeries Option.none (some openBounds) (some ['(', ']']) 2 with
+  | .ok (some F) => (match unsliceO F openBounds with
+       | .ok U => U.map (·.1) == openBounds &&
+           okEq (stitchO (U.map (·.2)) Option.none (some openBounds) (some ['(', ']']) 2) (some F)
+       | .error _ => false)
+  | _ => false)
+#guard (match stitchO openSeries.reverse Option.none (some openBounds.reverse) (some ['(', ']']) 2 with
+  | .ok (some F) => okEq (stitchO openSeries Option.none (some openBounds) (some ['(', ']']) 2) (some F) &&
+      (match unsliceO F openBounds.reverse with
+       | .ok U => U.map (·.1) == openBounds.reverse &&
+           okEq (stitchO (U.map (·.2)) Option.none (some openBounds.reverse) (some ['(', ']']) 2) (some F)
+       | .error _ => false)
+  | _ => false)
 
 end Pyg.Props.C13
